@@ -5,7 +5,7 @@ use super::{
 };
 use crate::{
     Error, ExecError, Interpreter,
-    variable::{ReturnType, Type, Variable},
+    variable::{Array, ReturnType, Type, Variable},
 };
 use pest::iterators::Pair;
 use simplesl_parser::Rule;
@@ -122,7 +122,8 @@ impl Exec for Slicing {
 
         let array = lhs.into_array().unwrap();
         let result: Arc<[Variable]> = s.apply(array.as_ref()).cloned().collect();
-        Ok(result.into())
+        // also an empty slice is an array of the sliced array's element type
+        Ok(Array::new_with_type(array.element_type().clone(), result).into())
     }
 }
 
